@@ -55,15 +55,18 @@ pub fn gen_case(rng: &mut Rng, faults: bool) -> CliCase {
     let output = match rng.below(100) {
         0..=39 => OutState::Stdout,
         40..=64 => OutState::New,
-        65..=84 => {
+        81..=84 => OutState::Existing(Vec::new()),
+        65..=80 => {
             // an existing, longer file: must be truncated on success, untouched on input failure
             let n = rng.range(1, 3000);
             OutState::Existing((0..n).map(|i| b"// old content\n"[i % 15]).collect())
         }
-        85..=92 => {
+        85..=89 => {
             output_name = format!("no-such-dir/{output_name}");
             OutState::InMissingDir
         }
+        90..=93 => OutState::ExistingLikeExpected(rng.pick(&["\n", "", "\n\n", " ", "\t\n"]).to_string()),
+        94..=96 => OutState::DevNull,
         _ => OutState::IsDirectory,
     };
     let serde_xml_rs = rng.pct(40);
@@ -200,7 +203,8 @@ pub fn judge(case: &CliCase, expected: &Option<String>, out: &CliOut, ctr: &mut 
         }
         if input_fault && !to_stdout {
             let (a, b) = (&out.before, &out.after);
-            if a.exists != b.exists || a.is_dir != b.is_dir || a.bytes != b.bytes || a.ino != b.ino || a.mtime_ns != b.mtime_ns {
+            // /dev/null is shared with every other process on the machine: its timestamps prove nothing
+            if !matches!(case.output, OutState::DevNull) && (a.exists != b.exists || a.is_dir != b.is_dir || a.bytes != b.bytes || a.ino != b.ino || a.mtime_ns != b.mtime_ns) {
                 return v(
                     &format!("output_touched_on_input_fault{sfx}"),
                     format!("the input was at fault but the output path changed: before exists={} len={} ino={} / after exists={} len={} ino={}", a.exists, a.bytes.len(), a.ino, b.exists, b.bytes.len(), b.ino),
@@ -236,6 +240,10 @@ pub fn judge(case: &CliCase, expected: &Option<String>, out: &CliOut, ctr: &mut 
     } else {
         if !out.stdout.is_empty() {
             return v(&format!("stdout_not_empty_with_output_file{sfx}"), "stdout must stay empty when an output file is named".into());
+        }
+        if matches!(case.output, OutState::DevNull) {
+            // nothing is stored in a character device; exit status and the silence of stdout are what can be judged
+            return None;
         }
         if !out.after.exists || out.after.bytes != want.as_bytes() {
             return v(&format!("output_file_content{sfx}"), format!("output file is not exactly header + rendering ({} bytes found, {} expected); expected:\n{want}", out.after.bytes.len(), want.len()));
@@ -289,7 +297,7 @@ pub fn exec_case(case: &CliCase, ctr: &mut Ctr) -> Result<Exec, String> {
         Err(_) => return Ok(super::skip("entropy_sensitive_rendering")),
     };
     let sb = sandbox_dir();
-    let out = run_cli(case, case.entropy, &sb)?;
+    let out = crate::cli::run_cli_with(case, case.entropy, &sb, expected.as_deref())?;
     let f = &out.fired;
     if f.calls == 0 {
         // every run opens its input through the interposed open: an empty report means LD_PRELOAD did not take
@@ -316,7 +324,7 @@ pub fn exec_case(case: &CliCase, ctr: &mut Ctr) -> Result<Exec, String> {
     if violation.is_none() {
         if let Some(te) = case.twin_entropy {
             // process twin: same world, other hash entropy
-            let out2 = run_cli(case, te, &sb)?;
+            let out2 = crate::cli::run_cli_with(case, te, &sb, expected.as_deref())?;
             bump(ctr, "fault.process_entropy_twin");
             if out2.exit != out.exit || out2.stdout != out.stdout || out2.after.bytes != out.after.bytes {
                 violation = Some(Violation {
@@ -348,6 +356,8 @@ pub fn exec_case(case: &CliCase, ctr: &mut Ctr) -> Result<Exec, String> {
         OutState::Existing(_) => 2,
         OutState::InMissingDir => 3,
         OutState::IsDirectory => 4,
+        OutState::ExistingLikeExpected(_) => 5,
+        OutState::DevNull => 6,
     });
     env.u64(expected.is_some() as u64);
     Ok(Exec { violation, trace: tr.0, fingerprint: fp.0, nontrivial: fired_any || failure_path, sim_steps: f.calls, discarded: None, shape: 0, env_sig: env.0 })
@@ -386,7 +396,7 @@ impl Prop for C12 {
         }
     }
     fn rule(&self) -> &'static str {
-        "a case = one execution of the release binary in a private sandbox: input present (generated valid document / hostile bytes / non-UTF-8 / empty or element-less) or missing or a directory; output to stdout / new file / existing longer file / path in a missing directory / a directory; argv drawn from every --parser, --sort, --derive combination in all spellings (--opt v, --opt=v, -o v, -ov) with derive strings incl. empty, spaces, commas, non-ASCII; 60% of cases carry a fault plan of 1-3 libc faults (EINTR / errno on open, read, write; short reads and writes down to 1 byte; statx failure), all cases carry the hash entropy; 2% of cases are bounded sweeps (one world x each of the 66 single faults: every errno / short count at each of the first 3 opens, 4 reads, 3 writes, plus statx failures); expected bytes computed in-process from the same library under 3 entropies; distinct = distinct (sandbox, argv, plan); non-trivial = an injected fault actually fired (per the shim's report) or the run took a failure path"
+        "a case = one execution of the release binary in a private sandbox: input present (generated valid document / hostile bytes / non-UTF-8 / empty or element-less) or missing or a directory; output to stdout / new file / existing longer or empty file / existing file that already holds the expected text give or take trailing white space / path in a missing directory / a directory / the character device /dev/null; argv drawn from every --parser, --sort, --derive combination in all spellings (--opt v, --opt=v, -o v, -ov) with derive strings incl. empty, spaces, commas, non-ASCII; 60% of cases carry a fault plan of 1-3 libc faults (EINTR / errno on open, read, write; short reads and writes down to 1 byte; statx failure), all cases carry the hash entropy; 2% of cases are bounded sweeps (one world x each of the 66 single faults: every errno / short count at each of the first 3 opens, 4 reads, 3 writes, plus statx failures); expected bytes computed in-process from the same library under 3 entropies; distinct = distinct (sandbox, argv, plan); non-trivial = an injected fault actually fired (per the shim's report) or the run took a failure path"
     }
     fn real_components(&self) -> Vec<&'static str> {
         vec!["the shipped xml_schema_generator release binary (main.rs, args.rs, clap, std::fs, std::io)", "the library linked into it", "the kernel file system under the sandbox directory"]
